@@ -43,7 +43,10 @@ namespace Frugal.Skeleton
 def decoder : String := "%s"
 def encoder : String := "%s"
 def resolver : String := "%s"
+/-- full text (not only control structure) of `structDesc`, `tField`, `tType`, `fromDefsFields`,
+    `fromDefsField`, `GetField`, `newTType`: the descriptor tables every codec theorem takes for granted -/
+def descTable : String := "%s"
 end Frugal.Skeleton
-""" % (sk["decoderSkeleton"], sk["encoderSkeleton"], sk["resolverSkeleton"])
+""" % (sk["decoderSkeleton"], sk["encoderSkeleton"], sk["resolverSkeleton"], sk["descTableSkeleton"])
 open(os.path.join(V, "lean/Frugal/Skeleton.lean"), "w").write(SK)
 print("wrote Skeleton.lean")
